@@ -307,3 +307,41 @@ def d_months(d):
 def isint(x):
     """Native meaning; the engine overrides this with an SMT predicate."""
     return x == int(x)
+
+
+def d_days(d):
+    return 7 * d._weeks if d._weeks is not None else d._days
+
+
+def d_hours(d):
+    return 0 if d._weeks is not None else d._hours
+
+
+def d_minutes(d):
+    return 0 if d._weeks is not None else d._minutes
+
+
+def d_seconds(d):
+    return 0 if d._weeks is not None else d._seconds
+
+
+def d_exact(d):
+    """Exact (no year / month component)."""
+    return d_years(d) == 0 and d_months(d) == 0
+
+
+def rough_days_seconds(d):
+    """(days, seconds) with 0 <= seconds < 86400, a year counted as the
+    calendar's common-year length and a month as 30 days (Duration ordering)."""
+    tot = 3600 * d_hours(d) + 60 * d_minutes(d) + d_seconds(d)
+    q = fdiv(tot, 86400)
+    return (d_years(d) * SUM + d_months(d) * 30 + d_days(d) + q, tot - 86400 * q)
+
+
+def rough_len(d):
+    return 86400 * (d_years(d) * SUM + d_months(d) * 30) + dlen(d)
+
+
+def fdiv(x, k):
+    """floor(x / k) as an integer-valued number (native: math.floor)."""
+    return (x // k)
